@@ -14,7 +14,9 @@ import (
 
 	"github.com/TheManticoreProject/Manticore/network/smb/smb_v10/message"
 	"github.com/TheManticoreProject/Manticore/network/smb/smb_v10/message/commands/codes"
+	datablock "github.com/TheManticoreProject/Manticore/network/smb/smb_v10/message/data"
 	"github.com/TheManticoreProject/Manticore/network/smb/smb_v10/message/header"
+	"github.com/TheManticoreProject/Manticore/network/smb/smb_v10/message/parameters"
 	"github.com/TheManticoreProject/Manticore/network/smb/smb_v10/message/securityfeatures"
 
 	"manticoreverif/smbgen"
@@ -199,7 +201,12 @@ func checkDispatch(c dispCase) []vf.Finding {
 	m := message.NewMessage()
 	err := safeUnmarshal(m, wire)
 	if err != nil {
-		// an error is fine for pairs MS-CIFS does not define or the library never implemented
+		// An error is fine for pairs MS-CIFS does not define or the library never implemented, and for a
+		// request followed by two empty blocks: only a reply can be an error reply, so for a request
+		// these 35 bytes are not the encoding of any structure (the populated variant covers its dispatch).
+		if !c.Reply && !c.Body {
+			return nil
+		}
 		if _, ok := expectedType(c); ok && implemented(c) {
 			return []vf.Finding{vf.F(subject, "implemented-pair-rejected", "status %#x, %d bytes after the header: %v", c.Status, len(wire)-32, err)}
 		}
@@ -461,49 +468,96 @@ func TestRepeatMarshal(t *testing.T) {
 // ---- block sizes up to the 255-word / 65535-byte limits ---------------------------------------------------
 //
 // No command structure emits more than a few dozen words, so the limits are reached with raw wire
-// bytes: an SMB_COM_ECHO request (EchoCount word, data block = echo data) whose parameter block is
-// given w words and whose data block b bytes. Decoding must attribute exactly 2*w bytes to the words
-// and exactly b bytes to the data, whatever w and b are.
+// bytes: a parameter block of w words followed by a data block of b bytes. They are decoded by the two
+// block types themselves, chained exactly as every command decoder chains them (Parameters.Unmarshal,
+// then Data.Unmarshal on what the first did not consume): exactly 2*w bytes must be attributed to the
+// words and exactly b bytes to the data, whatever w and b are. A whole message is decoded only with
+// the word count the structure has: an SMB_COM_ECHO request (one word, EchoCount; data block = echo
+// data) crossed with every byte count. What the Echo decoder does with another word count is not asked
+// (such bytes are not the encoding of an Echo request: it may refuse them). The decoded message is judged
+// by its fields (EchoCount, Data), not by the blocks a decoder may or may not keep in the command.
 
 type blockCase struct {
 	Words int `json:"words"`
 	Bytes int `json:"bytes"`
 }
 
+// echoRequestWords: MS-CIFS 2.2.4.39.1, WordCount of an SMB_COM_ECHO request
+const echoRequestWords = 1
+
+func safeBlock(u interface{ Unmarshal([]byte) (int, error) }, b []byte) (n int, err error) {
+	defer func() {
+		if r := recover(); r != nil {
+			err = fmt.Errorf("panic: %v", r)
+		}
+	}()
+	return u.Unmarshal(b)
+}
+
 func checkBlockLimits(c blockCase) []vf.Finding {
-	h := header.NewHeader()
-	h.Command = codes.CommandCode(0x2B)
-	wire, _ := h.Marshal()
-	wire = append(wire, byte(c.Words))
 	words := make([]byte, 2*c.Words)
 	for i := range words {
 		words[i] = byte(0x21 + i%0x5d)
 	}
-	wire = append(wire, words...)
-	wire = append(wire, byte(c.Bytes), byte(c.Bytes>>8))
-	data := make([]byte, c.Bytes)
-	for i := range data {
-		data[i] = byte(0xA0 + i%0x53)
+	content := make([]byte, c.Bytes)
+	for i := range content {
+		content[i] = byte(0xA0 + i%0x53)
 	}
-	wire = append(wire, data...)
+	// exact capacity: a read past the end must not land in spare capacity
+	blocks := make([]byte, 0, 1+len(words)+2+len(content))
+	blocks = append(blocks, byte(c.Words))
+	blocks = append(blocks, words...)
+	blocks = append(blocks, byte(c.Bytes), byte(c.Bytes>>8))
+	blocks = append(blocks, content...)
+
+	var fs []vf.Finding
+	p := parameters.NewParameters()
+	n, err := safeBlock(p, blocks)
+	if err != nil {
+		return []vf.Finding{vf.F("Parameters.Unmarshal", "well-framed-block-rejected", "%d words, %d bytes: %v", c.Words, c.Bytes, err)}
+	}
+	if n != 1+2*c.Words || int(p.WordCount) != c.Words || !bytes.Equal(p.GetBytes(), words) {
+		fs = append(fs, vf.F("Parameters.Unmarshal", "parameter-block-misframed", "%d words on the wire, decoded %d words (%d bytes), consumed %d bytes", c.Words, p.WordCount, len(p.GetBytes()), n))
+	}
+	if n < 0 || n > len(blocks) {
+		return fs
+	}
+	d := datablock.NewData()
+	n2, err := safeBlock(d, blocks[n:])
+	if err != nil {
+		return append(fs, vf.F("Data.Unmarshal", "well-framed-block-rejected", "%d words, %d bytes: %v", c.Words, c.Bytes, err))
+	}
+	if n2 != 2+c.Bytes || int(d.ByteCount) != c.Bytes || !bytes.Equal(d.GetBytes(), content) {
+		got := d.GetBytes()
+		fs = append(fs, vf.F("Data.Unmarshal", "data-block-misframed", "%d words / %d bytes on the wire: decoded byte count %d, consumed %d, first data bytes %x want %x", c.Words, c.Bytes, d.ByteCount, n2, got[:min(len(got), 6)], content[:min(len(content), 6)]))
+	}
+	if c.Words != echoRequestWords {
+		return fs
+	}
+
+	// the whole message, with the structure's own word count
+	h := header.NewHeader()
+	h.Command = codes.CommandCode(0x2B)
+	hb, _ := h.Marshal()
+	wire := make([]byte, 0, len(hb)+len(blocks))
+	wire = append(append(wire, hb...), blocks...)
 	m := message.NewMessage()
 	if err := safeUnmarshal(m, wire); err != nil {
-		if c.Words == 0 {
-			return nil // an empty parameter block is an error response: decoders may stop there
-		}
-		return []vf.Finding{vf.F("Message.Unmarshal", "well-framed-message-rejected", "%d words, %d bytes: %v", c.Words, c.Bytes, err)}
+		return append(fs, vf.F("Message.Unmarshal", "well-framed-message-rejected", "%d words, %d bytes: %v", c.Words, c.Bytes, err))
 	}
-	var fs []vf.Finding
-	p, d := m.Command.GetParameters(), m.Command.GetData()
-	if p == nil || d == nil {
-		return []vf.Finding{vf.F("Message.Unmarshal", "blocks-missing-after-decode", "")}
+	if m.Command == nil || reflect.ValueOf(m.Command).IsNil() {
+		return append(fs, vf.F("Message.Unmarshal", "decoded-without-command", "no error and no command"))
 	}
-	if int(p.WordCount) != c.Words || !bytes.Equal(p.GetBytes(), words) {
-		fs = append(fs, vf.F("Parameters.Unmarshal", "parameter-block-misframed", "%d words on the wire, decoded %d words (%d bytes)", c.Words, p.WordCount, len(p.GetBytes())))
+	rv := reflect.ValueOf(m.Command).Elem()
+	count, echo := rv.FieldByName("EchoCount"), rv.FieldByName("Data")
+	if !count.IsValid() || !count.CanUint() || !echo.IsValid() || echo.Kind() != reflect.Slice || echo.Type().Elem().Kind() != reflect.Uint8 {
+		return append(fs, vf.F("Message.Unmarshal", "wrong-structure-for-code-and-direction", "an Echo request decoded as %T", m.Command))
 	}
-	if int(d.ByteCount) != c.Bytes || !bytes.Equal(d.GetBytes(), data) {
-		got := d.GetBytes()
-		fs = append(fs, vf.F("Data.Unmarshal", "data-block-misframed", "%d words / %d bytes on the wire: decoded byte count %d, first data bytes %x want %x", c.Words, c.Bytes, d.ByteCount, got[:min(len(got), 6)], data[:min(len(data), 6)]))
+	if want := uint64(binary.LittleEndian.Uint16(words)); count.Uint() != want {
+		fs = append(fs, vf.F("EchoRequest", "decoded-blocks-differ", "%d data bytes: EchoCount %#x, the parameter word on the wire is %#x", c.Bytes, count.Uint(), want))
+	}
+	if got := echo.Bytes(); !bytes.Equal(got, content) {
+		fs = append(fs, vf.F("EchoRequest", "decoded-blocks-differ", "%d data bytes on the wire: %d decoded, first data bytes %x want %x", c.Bytes, len(got), got[:min(len(got), 6)], content[:min(len(content), 6)]))
 	}
 	return fs
 }
@@ -511,7 +565,7 @@ func checkBlockLimits(c blockCase) []vf.Finding {
 func TestBlockLimits(t *testing.T) {
 	s := vf.Begin(t, P, "block-limits-exhaustive")
 	s.SetExhaustive()
-	s.Note("every word count 0..255 crossed with byte counts {0,1,2,255,256,257,4096,65534,65535}")
+	s.Note("every word count 0..255 crossed with byte counts {0,1,2,255,256,257,4096,65534,65535} through Parameters.Unmarshal + Data.Unmarshal; whole Echo request messages (word count %d) with each of these byte counts", echoRequestWords)
 	vf.Enum(s, func(yield func(blockCase)) {
 		for w := 0; w <= 255; w++ {
 			for _, b := range []int{0, 1, 2, 255, 256, 257, 4096, 65534, 65535} {
